@@ -99,6 +99,7 @@ def one(tmpdir, d, absence, how, remove, u_sub, u_parent, position, tag, prior=N
     if abs(t.default_work_amount - dur) > 1e-9:
         out.append(("C20:work-amount-is-not-the-sub-project-duration" + (":absence-removed" if remove else ""), {"default_work_amount": t.default_work_amount, "expected": dur, "sub_time": sub_time, "absence": list(absence)}))
         return out, None
+    MT = int(math.ceil(dur * u_sub / float(u_parent))) + 60  # room for the whole sub-project plus predecessors, successors and absence steps
     if extra == "relate-twice":
         # the unit is related more than once on the same task object (another time grid first, the real one last)
         t.set_work_amount_progress_of_unit_step_time(datetime.timedelta(minutes=u_parent * 3))
@@ -120,8 +121,8 @@ def one(tmpdir, d, absence, how, remove, u_sub, u_parent, position, tag, prior=N
         # an earlier run of the same parent object asked for automatic tasks to go on during absence; the run under test does not
         # (keyword left out): the sub-project task must stand still at absence steps and use `want` working steps
         try:
-            m.project.simulate(max_time=400, absence_time_list=list(parent_abs), perform_auto_task_while_absence_time=True)
-            m.project.simulate(max_time=400, absence_time_list=list(parent_abs))
+            m.project.simulate(max_time=MT, absence_time_list=list(parent_abs), perform_auto_task_while_absence_time=True)
+            m.project.simulate(max_time=MT, absence_time_list=list(parent_abs))
         except Exception as e:
             return out + [("C20:parent-simulate-raised:%s" % type(e).__name__, {"error": repr(e)})], None
         rem = list(t.remaining_work_amount_record_list)
@@ -150,7 +151,7 @@ def one(tmpdir, d, absence, how, remove, u_sub, u_parent, position, tag, prior=N
         # parent run with project-wide absence steps and the automatic-task flag set: the sub-project task (an automatic
         # task) progresses at every step from the one its dependencies allow, absence steps included
         try:
-            m.project.simulate(max_time=400, absence_time_list=list(parent_abs), perform_auto_task_while_absence_time=True)
+            m.project.simulate(max_time=MT, absence_time_list=list(parent_abs), perform_auto_task_while_absence_time=True)
         except Exception as e:
             return out + [("C20:parent-simulate-raised:%s" % type(e).__name__, {"error": repr(e)})], None
         rem = list(t.remaining_work_amount_record_list)
@@ -173,7 +174,7 @@ def one(tmpdir, d, absence, how, remove, u_sub, u_parent, position, tag, prior=N
             out.append(("C20:sub-project-task-progress-steps-wrong-with-absence-and-auto-flag", det))
         return out, want
     try:
-        m.project.simulate(max_time=400, absence_time_list=[])
+        m.project.simulate(max_time=MT, absence_time_list=[])
     except Exception as e:
         return out + [("C20:parent-simulate-raised:%s" % type(e).__name__, {"error": repr(e)})], None
     want = int(math.ceil(dur * u_sub / float(u_parent) - 1e-9))
